@@ -603,8 +603,9 @@ def run(prop):
         if not wanted:
             continue
         ht = 1800 if tier() == "thorough" else 600
+        leak = None   # CBMC's leak check is applied to the runtime harnesses only (E1); here the harness itself keeps objects alive across the call
         res, tools, log_, ok, wall = kani_run(prep["dir"], "bridge", filters=["ffi::" + w for w in wanted], exact=True, harness_timeout=ht,
-                                              target_dir=os.path.join(CACHE, "target-bridge"))
+                                              target_dir=os.path.join(CACHE, "target-bridge"), extra_args=leak)
         if not ok:
             # A harness calls each wrapper by the name and with the arity the *header* declares. If rustc rejects exactly
             # that (unknown function / wrong number of arguments), header and macro disagree: a static finding. The
